@@ -108,7 +108,11 @@ Inductive gd_case :=
 | CTrans (m : msg) (e : env) (paid : bool) (snd_e snd_g : sender) (o_e o_g : oracle)
          (moved_e moved_g : Z) (obs_e obs_g : tobs)
 | COpsGeth (extra : list Z) (pre : list pre_acct) (ops : list (op * obs)) (post : list post_acct)
-| COpsEvm (extra : list Z) (mods : list Z) (next : Z) (pre : list pre_acct) (ops : list (op * obs)) (post : list post_acct).
+| COpsEvm (extra : list Z) (mods : list Z) (next : Z) (pre : list pre_acct) (ops : list (op * obs)) (post : list post_acct)
+(* random interface-operation sequences (no interpreter): as above, and [panic] = the operation at which the
+   implementation panicked after [ops] (the model must fail there too); [post] is then the view at that point *)
+| CRandGeth (extra : list Z) (pre : list pre_acct) (ops : list (op * obs)) (panic : option op) (post : list post_acct)
+| CRandEvm (extra : list Z) (mods : list Z) (next : Z) (pre : list pre_acct) (ops : list (op * obs)) (panic : option op) (post : list post_acct).
 
 Definition gd_ok (c : gd_case) : bool :=
   match c with
@@ -125,6 +129,22 @@ Definition gd_ok (c : gd_case) : bool :=
   | COpsEvm extra mods next pre ops post =>
       match replay (estep_x extra) (einit (e_store_of pre mods next)) ops O with
       | (O, Some s) => forallb (e_post_ok s) post
+      | _ => false
+      end
+  | CRandGeth extra pre ops panic post =>
+      let s0 := ginit (g_objs_of pre) in
+      let s0 := mkGst (g_cur s0) [] (first_snapshot_id ops) [] false true in
+      match replay (gstep_x extra) s0 ops O with
+      | (O, Some s) =>
+          forallb (g_post_ok s) post
+          && match panic with None => true | Some o => match gstep_x extra o s with None => true | Some _ => false end end
+      | _ => false
+      end
+  | CRandEvm extra mods next pre ops panic post =>
+      match replay (estep_x extra) (einit (e_store_of pre mods next)) ops O with
+      | (O, Some s) =>
+          forallb (e_post_ok s) post
+          && match panic with None => true | Some o => match estep_x extra o s with None => true | Some _ => false end end
       | _ => false
       end
   end.
